@@ -44,6 +44,7 @@ void sym_assume_cmp(double a, int op, double b)
         printf("REPLAY-NOTE assumption does not hold exactly on doubles (a=%.17g op=%d b=%.17g)\n", a, op, b);
     }
 }
+void sym_assume_eq_implies_eq(int, const double*, const double*, double, double) {}
 void sym_check_cmp(double a, int op, double b, const char* label)
 {
     ++checks;
